@@ -4,6 +4,7 @@ CONSTANTS
   MaxCells = 4
   MaxD = 2
   AllowEmptyBd = TRUE
+  WithReps = FALSE
   Mode = "insert"
 VIEW View
 INVARIANT InvWellFormed
